@@ -143,6 +143,45 @@ def eval_engine(expr):
             mutated = "second-evaluation-differs"
     return got, mutated
 
+def mathrandom_part(cr):
+    rpool = ["1", "4", "'a'", "null", "1.5", "true", "$.zz", "$.o", "$.arr"]
+    lit = {"1": 1, "4": 4, "'a'": "a", "null": None, "1.5": 1.5, "true": True, "$.zz": KeyError, "$.o": dict, "$.arr": list}
+    isint = lambda v: isinstance(v, int) and not isinstance(v, bool)
+    count = 0
+    for arity in range(0, 5):
+        for rargs in itertools.product(rpool if arity < 4 else rpool[:4], repeat=arity):
+            expr = "States.MathRandom(%s)" % ", ".join(rargs)
+            rgot, _ = eval_engine(expr)
+            count += 1
+            rvals = [lit[a] for a in rargs]
+            if KeyError in rvals:
+                rwant = "path"
+            elif arity in (2, 3) and isint(rvals[0]) and isint(rvals[1]):
+                rwant = "value" if rvals[0] < rvals[1] and (arity == 2 or isint(rvals[2])) else "value-or-intrinsic"     # an empty range / a seed of another type
+            else:
+                rwant = "intrinsic"
+            bad = None
+            if rgot[0] == "raise":
+                bad = "raises-%s" % rgot[1]
+            elif rwant == "value-or-intrinsic":
+                if rgot[0] not in ("value", "intrinsic"):
+                    bad = "wrong-failure-class"
+            elif rwant == "value":
+                if rgot[0] != "value":
+                    bad = "rejects-valid"
+                elif not isint(rgot[1]) or not (rvals[0] <= rgot[1] < rvals[1]):
+                    bad = "out-of-range"
+                elif arity == 3:
+                    again, _ = eval_engine(expr)
+                    if again != rgot:
+                        bad = "seed-does-not-fix-the-value"
+            elif rgot[0] != rwant and not (rwant == "path" and rgot[0] == "intrinsic"):
+                bad = "accepts-invalid" if rgot[0] == "value" else "wrong-failure-class"
+            if bad:
+                sig = "intrinsic|States.MathRandom|" + bad
+                cr.add(sig, "%s -> %r" % (expr, rgot), {"kind": "expr", "property": PROP, "signature": sig, "expr": expr}, size=len(expr))
+    return count
+
 def eval_ref(expr):
     try:
         v = RT.intrinsic(expr, copy.deepcopy(INPUT), copy.deepcopy(CTX))
@@ -312,6 +351,8 @@ def run(tier, seed):
         sig = "intrinsic|States.UUID|repeats-after-seeded-random"
         cr.add(sig, "States.UUID() returned %s %d times in a sequence of evaluations that also draw seeded States.MathRandom values" % (rep[0], seen_ids[rep[0]]),
                {"kind": "sequence", "property": PROP, "signature": sig}, size=1)
+    # States.MathRandom: which argument lists are accepted, the value lies in [start, end), and an integer seed fixes the value
+    judged += mathrandom_part(cr)
     # templates
     sp, ex = engine()
     nt = 0
